@@ -498,7 +498,7 @@ class C15(Prop):
         "parser's/unifier's matter (C14/C17), not the order's",
         "timeouts / recursion errors are counted, never judged",
     ]
-    budget = {"quick": 150, "thorough": 1500}
+    budget = {"quick": 55, "thorough": 1150}
 
     def precheck(self, tier):
         n = R.self_check()
